@@ -8,7 +8,7 @@ ALL = ["C%02d" % i for i in range(1, 20)]
 CHECKS = {
  "C01": dict(
   category="exploration",
-  text="Each of the 61 indicator Compute methods is executed on channels for the default and many seeded random admissible configurations, 11-12 series classes (walks, ties, plateaus, flat, monotone, degenerate bars, outliers, zero/negative integers for additive types) and several lengths; every output position is compared with a slice reference written from the doc comment and evaluated directly on its window (no shared code with the library), tolerance 1e-9 x natural scale, ill-conditioned positions exempt and counted. Known deviations are recognised only through one-switch deviation models (anything else is a violation). Bounded exploration: holds for the sampled configurations and series.",
+  text="Each of the 61 indicator Compute methods is executed on channels for the default and many seeded random admissible configurations, 13-14 series classes (walks, ties, plateaus, flat, monotone, degenerate bars, outliers, prices in a unit 2^40 times larger/smaller, zero/negative integers for additive types) and several lengths; every output position is compared with a slice reference written from the doc comment and evaluated directly on its window (no shared code with the library), tolerance 1e-9 x natural scale, ill-conditioned positions exempt and counted. Known deviations are recognised only through one-switch deviation models (anything else is a violation). Bounded exploration: holds for the sampled configurations and series.",
   design_ref="DESIGN.md §3 C01, Appendix A",
   note="Trusted: the reference readings in harness/internal/reg (Appendix A records where the doc comment is silent and the reference follows code/convention: those rows guard regressions only); IEEE float64; tolerance rule of DESIGN §3 C01.",
   technique="differential runtime monitoring of real executions against documented-formula slice references (one-switch deviation models for known findings)",
@@ -22,8 +22,8 @@ CHECKS = {
  ),
  "C03": dict(
   category="exploration",
-  text="All indicators and strategies (base, compound, decorated, nested) are run in a timer-free pure-Go child under 4 channel capacities x 4 pacings x 2-4 GOMAXPROCS settings, for lengths around the warm-up, empty inputs and unequal input lengths. Termination is decided by the Go runtime's own deadlock proof (no timeout), leaks by a goroutine census fixed point after each run, consumption by producers having to reach close, determinism by bit-equality across all schedule parameterisations; distinct observed receive interleavings are counted.",
-  design_ref="DESIGN.md §3 C03, §1 E3",
+  text="All indicators and strategies (base, compound, decorated, nested) are run in a timer-free pure-Go child under 4 channel capacities x 4 pacings x 2-4 GOMAXPROCS settings, for lengths around the warm-up, empty inputs and unequal input lengths. Termination is decided by the Go runtime's own deadlock proof (no timeout), leaks by a goroutine census fixed point after each run, consumption by producers having to reach close, determinism by bit-equality across all schedule parameterisations; distinct observed receive interleavings are counted. Every type with two or more periods is also run with permuted, reversed and unrelated periods (termination, leaks and schedule independence only); a few pipelines are run with one reader, or the producer, really asleep for 1.25 s in mid-stream and compared with the eager run.",
+  design_ref="DESIGN.md §3 C03, §1 E3, §7.2, §7.4",
   note="Trusted: the Go scheduler/runtime deadlock detector (children are built CGO_ENABLED=0 because a cgo extra M disables it); Kahn-network determinacy is what makes sampled schedules representative, and is itself monitored by the bit-equality oracle and C09's race runs.",
   technique="stress execution under varied schedules with runtime deadlock detector, goroutine census (leak monitor) and cross-schedule equality oracle",
  ),
@@ -43,7 +43,7 @@ CHECKS = {
  ),
  "C06": dict(
   category="exploration",
-  text="Each of the 32 base strategies is run on OHLCV series whose five fields vary independently, at default and random configurations (thresholds randomised so both sides of every comparison occur; Buy/Sell counts are recorded per strategy), and every action is compared with the documented decision rule evaluated on the strategy's own indicator instance over the documented fields. This isolates field wiring, rule, comparison direction and alignment from formula correctness (C01). Known deviations are recognised through one-switch deviation models only.",
+  text="Each of the 32 base strategies is run on OHLCV series whose five fields vary independently, at default and random configurations (thresholds randomised so both sides of every comparison occur; Buy/Sell counts are recorded per strategy), and every action is compared with the documented decision rule evaluated on the strategy's own indicator instance over the documented fields. This isolates field wiring, rule, comparison direction and alignment from formula correctness (C01). Positions where the compared quantities agree within rounding are exempt; a NaN quantity is not: both documented tests are false there, so Hold is expected. Known deviations are recognised through one-switch deviation models only.",
   design_ref="DESIGN.md §3 C06, Appendix B",
   note="Trusted: the rule readings in harness/internal/reg/strat_*.go (Appendix B; 'crosses above' is read as a level test where the code keeps no previous value; MacdStrategy's undocumented zero-side filter is a code reading, i.e. a regression guard).",
   technique="differential runtime monitoring against the documented rule evaluated on the strategy's own indicator (one-switch deviation models for known findings)",
@@ -64,7 +64,7 @@ CHECKS = {
  ),
  "C09": dict(
   category="exploration",
-  text="For every indicator and strategy one instance is used for a sequence of calls on different inputs and then for 6-8 simultaneous calls at GOMAXPROCS=16; all results must equal those of fresh instances bit for bit, and a reflective deep fingerprint of the instance (unexported fields included) must not change across any call. The same concurrent batches are repeated under the Go race detector (halt_on_error=0; report blocks counted and de-duplicated). Worker-pool races are covered by C12/C13.",
+  text="For every indicator and strategy one instance is used for a sequence of calls on different inputs and then for 6-8 simultaneous calls at GOMAXPROCS=16; all results must equal those of fresh instances bit for bit, and a reflective deep fingerprint of the instance (unexported fields included) must not change across any call. The same concurrent batches are repeated under the Go race detector (halt_on_error=0; report blocks counted and de-duplicated). 36 small pipelines of parameterised stream helpers (RoundDigits, Shift, Skip, Change, Last, Buffered, ...) with different parameters run side by side and are compared with their solo results. Worker-pool races are covered by C12/C13.",
   design_ref="DESIGN.md §3 C09, §1 E4",
   note="Trusted: the race detector only sees executed interleavings (the batch is repeated 3/10 times); concurrent use of one helper.Csv value is not claimed (the library never shares one).",
   technique="Go race detector over concurrent workloads + state-immutability fingerprint + reuse/concurrency equivalence oracle",
@@ -78,7 +78,7 @@ CHECKS = {
  ),
  "C11": dict(
   category="exploration",
-  text="Row structs covering every supported kind with values from the extremes of each kind go through random write/append/append-or-write histories on one file (always including a longer file overwritten by a shorter one, with and without header) and are read back and compared with a list model after every step; header permutation / extra columns are checked with files written directly by encoding/csv, also through one reused codec value; JSON streams are round-tripped for floats, ints, strings, times and a struct.",
+  text="Row structs covering every supported kind (also as named types that implement fmt.Stringer: time.Duration, time.Month, own enum/bool/uint16/string/float types) with values from the extremes of each kind go through random write/append/append-or-write histories on one file (always including a longer file overwritten by a shorter one, with and without header) and are read back and compared with a list model after every step; header permutation / extra columns are checked with files written directly by encoding/csv, also through one reused codec value; JSON streams are round-tripped for floats, ints, strings, times and a struct.",
   design_ref="DESIGN.md §3 C11",
   note="Trusted: encoding/csv and encoding/json. The two-byte sequence CR LF inside strings is outside the domain (encoding/csv normalises it on read). One known finding: a lone empty string field.",
   technique="round-trip oracle + file-content list model over operation histories",
@@ -113,7 +113,7 @@ CHECKS = {
  ),
  "C15": dict(
   category="exploration",
-  text="Invariant monitors (ranges, band ordering, containment, non-negativity) run on every value emitted by the 20 indicators the property names, over 11 hostile-but-valid OHLCV classes, many period configurations and lengths up to 400; zero-denominator positions are exempt and counted. No reference implementation decides the verdict (the registry reference is only used to locate zero denominators).",
+  text="Invariant monitors (ranges, band ordering, containment, non-negativity) run on every value emitted by the 20 indicators the property names, over 11 hostile-but-valid OHLCV classes, many period configurations and lengths up to 400; zero-denominator positions are exempt and counted. float32 instantiations of the ratio indicators run on tight-range bars at high price levels and on bars near the top of the float32 range (judged against the float64 instantiation on the same bars). No reference implementation decides the verdict (the registry reference is only used to locate zero denominators).",
   design_ref="DESIGN.md §3 C15",
   note="Trusted: validity of generated bars (low <= open, close <= high, prices > 0, volume >= 0); slack 1e-6 of the range / 1e-9 of the price scale. ATR is checked for its SMA/EMA variants (with the HMA used by SuperTrend the 'average' is not an average).",
   technique="runtime invariant monitoring of emitted values under hostile valid workloads",
@@ -127,14 +127,14 @@ CHECKS = {
  ),
  "C16": dict(
   category="exploration",
-  text="Every stream helper is compared exactly with a pure slice model for all input lengths 0-6 x all parameters 0-8 (all unequal-length combinations for the zippers), three element types with distinct signed elements and 4 schedule parameterisations, inside the timer-free runner (deadlock report, census, producers must reach close); plus random long inputs. The enumerated small scope is exhaustive; beyond it sampled.",
+  text="Every stream helper is compared exactly with a pure slice model for all input lengths 0-6 x all parameters 0-8 (all unequal-length combinations for the zippers), three element types with distinct signed elements, a float stream with exact zeros (quotients +-Inf/NaN as IEEE division gives) and 4 schedule parameterisations, inside the timer-free runner (deadlock report, census, producers must reach close); plus random long inputs. The enumerated small scope is exhaustive; beyond it sampled.",
   design_ref="DESIGN.md §3 C16",
   note="Trusted: the slice models in harness/internal/props/c16.go. Head is modelled as take-N-and-leave-the-rest, Seq as half-open, Echo only for inputs at least as long as its memory (shorter inputs are outside the documented behaviour and are skipped, counted).",
   technique="exhaustive small-scope model-based runtime monitoring (slice models) under the deadlock/leak monitors",
  ),
  "C17": dict(
   category="exploration",
-  text="Ring and Bst are driven through thousands of random operation histories over all seven numeric element types with values at the extremes of each type, in lock-step with a bounded-FIFO model and a multiset model; every return value is compared and the live tree is walked by reflection (sorted in-order, size and multiplicities equal to the model). All Bst histories up to length 5/6 over a 3-letter alphabet are enumerated exhaustively. This is bounded exploration: it shows the models agree on the histories run, not on all histories.",
+  text="Ring and Bst are driven through thousands of random operation histories over all seven numeric element types with values at the extremes of each type, in lock-step with a bounded-FIFO model and a multiset model; every return value is compared and the live tree is walked by reflection (sorted in-order, size and multiplicities equal to the model). All Bst histories up to length 5/6 over a 3-letter alphabet are enumerated exhaustively. The tree's sliding-window clients trend.MovingMax / MovingMin are run over the same pools plus the infinities for every element type and compared with the extreme of each window's multiset. This is bounded exploration: it shows the models agree on the histories run, not on all histories.",
   design_ref="DESIGN.md §3 C17",
   note="Trusted: the Go runtime and reflect; the FIFO/multiset models in harness/internal/props/c17.go. Ring.Put's return value on a non-full ring is deliberately unchecked (the property only speaks of the displaced element).",
   technique="lock-step model-based runtime monitoring of operation histories + reflective structural invariant walk",
